@@ -327,6 +327,18 @@ def overflow(d):
   return d.overflow.numpy().copy()
 
 
+def overflow_fwd(d):
+  """Overflow word as a check that only calls forward() has to read it: NEFC / NARROWPHASE are written into Data.overflow at the end of step() only
+  (C16's statement is about step()), so after forward() alone an exceeded row / contact capacity shows in nefc > njmax / nacon > naconmax."""
+  from mujoco_warp._src.types import OverflowType as OT
+
+  of = d.overflow.numpy().copy()
+  of[d.nefc.numpy() > d.njmax] |= int(OT.NEFC)
+  if int(d.nacon.numpy()[0]) > d.naconmax:
+    of |= int(OT.NARROWPHASE)
+  return of
+
+
 def zero_overflow(d):
   d.overflow.zero_()
 
